@@ -39,6 +39,8 @@ ASSUMPTIONS = [
     "as f x trunc(coarser user interval) (the statement does not fix the rounding)",
     "'valid' = no bit of PANDORA_MSK_PIXEL_INVALID in the coarser validity mask",
     "subpix = 1 at every scale (multiscale works on integer disparities)",
+    "cases whose widened finer-level interval could reach the image width of that level are skipped as degenerate "
+    "(the matching cost raises there: open finding A8 of C02)",
     "cbca is combined with monoband images only (it does not accept multiband images, with or without multiscale)",
     "'searched' disparities of the coarsest level = sampled planes with at least one computable cost",
 ]
@@ -220,6 +222,13 @@ def run_case(case):
         w = 3
     if min(level_shape(ny, f, S - 1), level_shape(nx, f, S - 1)) < w + 2:
         return {"n": 1, "sigs": [], "viol": [], "trivial": 1}
+    # the interval searched at a finer level can grow to f x (coarser + marge): when it can reach the width of that
+    # level's image the matching cost itself raises (open finding A8 of C02), which says nothing about multiscale
+    worst = max(abs(case["interval"][0]), abs(case["interval"][1])) / f ** (S - 1)
+    for lev in range(S - 2, -1, -1):
+        worst = f * (worst + case["marge"])
+        if worst >= level_shape(nx, f, lev) - (w - 1) - 1:
+            return {"n": 1, "sigs": [], "viol": [], "trivial": 1}
     L, R, pipe = build(case)
     L0, R0 = L.copy(deep=True), R.copy(deep=True)
     viol = []
